@@ -97,7 +97,7 @@ Proof.
 Qed.
 
 Lemma parse_connack_inv : forall v b body,
-  parse_connack b = Ok body -> bytes_ok b -> dec_inv v body /\ exists code sp pr, body = BConnack 5 code sp pr.
+  parse_connack v b = Ok body -> bytes_ok b -> dec_inv v body /\ exists code sp pr, body = BConnack v code sp pr.
 Proof.
   intros v b body H Hb. unfold parse_connack in H.
   destruct (match b with [] => (0, []) | x :: r => (x, r) end) as [sp b1] eqn:E0.
@@ -106,10 +106,12 @@ Proof.
   destruct (0 <? _); [discriminate|].
   destruct (read_byte b1) as [[c b2]| | |] eqn:E2; cbn [remap bind] in H; try discriminate.
   apply read_byte_inv in E2; [|assumption]. destruct E2 as (Hc & Hb2 & _).
-  cbn [N.eqb Pos.eqb] in H.
-  destruct (props_unpack CONNACK b2) as [[p r]| | |] eqn:E3; cbn [bind] in H; try discriminate.
-  apply props_unpack_inv in E3; [|assumption].
-  inversion H; subst. split; [|eauto]. cbn [dec_inv]. repeat split; auto. exists p. tauto.
+  destruct (v =? 5) eqn:Ev.
+  - destruct (props_unpack CONNACK b2) as [[p r]| | |] eqn:E3; cbn [bind] in H; try discriminate.
+    apply props_unpack_inv in E3; [|assumption].
+    inversion H; subst. split; [|eauto]. cbn [dec_inv]. unfold oprops_inv. rewrite Ev.
+    repeat split; auto. exists p. tauto.
+  - inversion H; subst. split; [|eauto]. cbn [dec_inv]. unfold oprops_inv. rewrite Ev. auto.
 Qed.
 
 Lemma parse_suback_inv : forall v b body,
@@ -189,7 +191,7 @@ Proof.
            | bind ?r _ = _ => destruct r as [[? ?]| | |]; cbn [bind] in H; try discriminate
            | match ?x with _ => _ end = _ => destruct x; try discriminate
            end; inversion H; subst; discriminate. }
-  destruct (fh_type fh =? CONNACK). { eapply parse_connack_inv; eauto. }
+  destruct (fh_type fh =? CONNACK). { eapply (parse_connack_inv v); eauto. }
   destruct (fh_type fh =? PUBLISH).
   { destruct (publish_flags (fh_flags fh)) as [[[dup qos] retain]| | |] eqn:Ef; cbn [bind] in H; try discriminate.
     apply publish_flags_inv in Ef. destruct Ef. eapply parse_publish_inv; eauto. }
@@ -299,8 +301,8 @@ Proof.
   destruct (p_body p) as [c|ver code sp pr|ver dup qos retain topic pid payload pr|ta ver pid code pr|pid code pr
                           |ver pid ts pr|ver pid pl pr|ver pid ts pr|ver pid pl pr| | |ver code pr|code pr] eqn:Ebody;
     try discriminate.
-  - (* CONNACK *) destruct Hinv as (-> & Hrest).
-    destruct (rt_connack v code sp pr t fl bytes (conj eq_refl Hrest) Epb Hlen) as (-> & -> & Hparse).
+  - (* CONNACK *) assert (ver = v) by (destruct Hinv; assumption). subst ver.
+    destruct (rt_connack v code sp pr t fl bytes Hinv Epb Hlen) as (-> & -> & Hparse).
     eapply (read_packet_packed v CONNACK 0 bytes _ h); [reflexivity|reflexivity|exact Hlen| |exact Eh].
     left. split; [reflexivity|exact Hparse].
   - (* PUBLISH *) assert (ver = v) by (destruct Hinv; assumption). subst ver.
